@@ -185,10 +185,23 @@ class Parser:
         return tok[1]
 
     def skip_attrs(self):
+        """skip attributes; returns their texts (tokens joined without spaces)"""
+        out = []
         while self.at("#"):
             self.next()
             self.eat("!")
-            self.skip_group()
+            toks = self.group_tokens()
+            out.append("".join(t[1] for t in toks))
+        return out
+
+    @staticmethod
+    def cfg_disabled(attrs):
+        """attributes that remove the item/statement in the default build (no features, not test)"""
+        for a in attrs:
+            if a.startswith("cfg(") and ("feature=" in a and "not(feature" not in a or a == "cfg(test)" or "cfg(all(test" in a or a == "cfg(kani)"
+                                         or "any(kani,rnacos_verif)" in a or "cfg(miri)" in a):
+                return True
+        return False
 
     def skip_group(self):
         """skip one balanced (...) [...] {...} group starting at the current token"""
@@ -631,14 +644,15 @@ class Parser:
                 self.expect("{")
                 arms = []
                 while not self.at("}"):
-                    self.skip_attrs()
+                    arm_attrs = self.skip_attrs()
                     pat = self.parse_pattern()
                     guard = None
                     if self.eat("if"):
                         guard = self.parse_expr()
                     self.expect("=>")
                     body = self.parse_expr()
-                    arms.append((pat, guard, body))
+                    if not self.cfg_disabled(arm_attrs):
+                        arms.append((pat, guard, body))
                     if not self.eat(","):
                         if self.at("}"):
                             break
@@ -841,7 +855,14 @@ class Parser:
         stmts = []
         tail = None
         while not self.at("}"):
-            self.skip_attrs()
+            attrs = self.skip_attrs()
+            if self.cfg_disabled(attrs):
+                # parse and drop the statement
+                n_before = len(stmts)
+                saved_tail = tail
+                self._one_stmt(stmts)
+                del stmts[n_before:]
+                continue
             if self.eat(";"):
                 continue
             if self.at("let"):
@@ -876,6 +897,31 @@ class Parser:
         self.expect("}")
         return ("block", stmts, tail)
 
+    def _one_stmt(self, stmts):
+        if self.eat(";"):
+            return
+        if self.at("let"):
+            self.next()
+            pat = self.parse_pattern()
+            ty = None
+            if self.eat(":"):
+                ty = self.parse_type()
+            init = None
+            els = None
+            if self.eat("="):
+                init = self.parse_expr()
+                if self.eat("else"):
+                    els = self.parse_block()
+            self.expect(";")
+            stmts.append(("let", pat, ty, init, els))
+            return
+        if self._at_item():
+            stmts.append(("item", self.parse_item()))
+            return
+        e = self.parse_expr()
+        self.eat(";")
+        stmts.append(("expr", e))
+
     def _at_item(self):
         t = self.peek()[1]
         if t in ("fn", "struct", "enum", "impl", "use", "mod", "static", "trait", "type", "pub", "extern"):
@@ -888,7 +934,13 @@ class Parser:
 
     # -- items --
     def parse_item(self):
-        self.skip_attrs()
+        attrs = self.skip_attrs()
+        if self.cfg_disabled(attrs):
+            self._parse_item_inner([])
+            return ("skipped",)
+        return self._parse_item_inner(attrs)
+
+    def _parse_item_inner(self, attrs):
         if self.eat("pub"):
             if self.at("("):
                 self.skip_group()
@@ -904,8 +956,22 @@ class Parser:
                     return ("skipped",)
                 self.next()
         if self.at("fn"):
-            return self._fn()
-        if self.at("use") or self.at("type") or self.at("extern"):
+            f = self._fn()
+            return f + (attrs,)
+        if self.at("type"):
+            self.next()
+            name = self.ident()
+            if self.at("<"):
+                self.next()
+                self._angle_rest()
+            if self.eat("="):
+                target = self.parse_type()
+            else:
+                target = ""
+            while not self.eat(";"):
+                self.next()
+            return ("type_alias", name, target)
+        if self.at("use") or self.at("extern"):
             while not self.eat(";"):
                 if self.at("{"):
                     self.skip_group()
@@ -1113,10 +1179,12 @@ class Parser:
 
     def parse_file(self):
         items = []
-        self.skip_attrs()
+        while self.at("#") and self.at("!", 1):
+            self.next()
+            self.next()
+            self.skip_group()
         while not self.at_kind("eof"):
             items.append(self.parse_item())
-            self.skip_attrs()
         return items
 
 
